@@ -8,6 +8,7 @@ import (
 	"strings"
 	"testing"
 
+	"github.com/BondMachineHQ/BondMachine/pkg/bondmachine"
 	"github.com/BondMachineHQ/BondMachine/pkg/simbox"
 	"pgregory.net/rapid"
 	"verifharness/gen"
@@ -21,6 +22,8 @@ type Case struct {
 	Ticks  int
 	Strict bool
 	Delays map[string]int `json:",omitempty"` // simulator only: opcode -> extra ticks (single-valued distribution)
+	// Commented: Config.CommentedVerilog (bondmachine -comment-verilog): comments only, the same hardware
+	Commented bool `json:",omitempty"`
 }
 
 func genCase(t *rapid.T) Case {
@@ -30,7 +33,8 @@ func genCase(t *rapid.T) Case {
 	// the IO opcodes have different widths (1, 2, 3 bits) in every combination
 	ports := []int{2, 2, 3, 5}
 	maxIn, maxOut := rapid.SampledFrom(ports).Draw(t, "maxin"), rapid.SampledFrom(ports).Draw(t, "maxout")
-	c.Spec = gen.HandshakeMachine(t, gen.HSOptions{MaxProcs: 4, MaxPad: 3, MaxIn: maxIn, MaxOut: maxOut, NoFanout: nofan, EqualLoops: rapid.Bool().Draw(t, "equalloops"), Replicate: true, RichALU: rapid.Bool().Draw(t, "richalu")})
+	c.Spec = gen.HandshakeMachine(t, gen.HSOptions{MaxProcs: 4, MaxPad: 3, MaxIn: maxIn, MaxOut: maxOut, NoFanout: nofan, EqualLoops: rapid.Bool().Draw(t, "equalloops"), Replicate: true, RichALU: rapid.Bool().Draw(t, "richalu"), RAM: true})
+	c.Commented = rapid.IntRange(0, 3).Draw(t, "commented") == 0
 	for i := 0; i < c.Spec.Inputs; i++ {
 		n := rapid.IntRange(0, 20).Draw(t, "nin")
 		var st []uint64
@@ -248,7 +252,9 @@ func prop(c Case) pbt.Outcome {
 	for _, b := range bm.List_bonds() {
 		wantBonds = append(wantBonds, b)
 	}
-	files, err := gen.RenderBM(bm, nil)
+	conf := new(bondmachine.Config)
+	conf.CommentedVerilog = c.Commented
+	files, err := gen.RenderBM(bm, conf)
 	if err != nil {
 		return pbt.Outcome{Fail: pbt.Failf("render", "%v", err)}
 	}
@@ -269,6 +275,15 @@ func prop(c Case) pbt.Outcome {
 	}
 	if fanout {
 		labels = append(labels, "fanout")
+	}
+	if c.Commented {
+		labels = append(labels, "commented-verilog")
+	}
+	for _, ps := range c.Spec.Procs {
+		if ps.L > 0 {
+			labels = append(labels, "processor-with-ram")
+			break
+		}
 	}
 	for _, ps := range c.Spec.Procs {
 		if gen.NeededBits(ps.N) != gen.NeededBits(ps.M) && ps.N > 0 {
@@ -327,6 +342,14 @@ func prop(c Case) pbt.Outcome {
 				fail = pbt.Failf("stream-differs", "external output o%d: simulation delivers %v, generated hardware delivers %v (first difference at position %d)", o, a, b, k)
 				break
 			}
+		}
+		// prefix-wise comparison says nothing about a side that delivers nothing at all: the horizons (T ticks,
+		// 4T cycles) are generous enough that a side with >=3 values against an empty one is not a matter of speed
+		if fail == nil && len(a) >= 3 && len(b) == 0 {
+			fail = pbt.Failf("hdl-starved", "external output o%d: simulation delivers %v in %d ticks, the generated hardware delivers nothing in %d cycles", o, a, c.Ticks, 4*c.Ticks)
+		}
+		if fail == nil && len(b) >= 3 && len(a) == 0 {
+			fail = pbt.Failf("sim-starved", "external output o%d: the generated hardware delivers %v in %d cycles, the simulation delivers nothing in %d ticks", o, b, 4*c.Ticks, c.Ticks)
 		}
 		if fail != nil {
 			break
